@@ -137,8 +137,18 @@ pub fn col_name(variant: usize, col: &str) -> String {
 
 /// γ: the concrete cell of request `req`, row `idx`, pool column `col`.
 pub fn gamma(variant: usize, col: &str, req: usize, idx: usize) -> Cell {
-    if col.starts_with('s') && (req + idx) % 2 == 1 {
-        return Cell::Null;
+    // "sparse" pool columns: which rows of a request are NULL depends on request and variant, so that
+    // over the rotation a column is fully present, half present (either half) or entirely NULL in a batch
+    if col.starts_with('s') {
+        let null = match (req + variant) % 4 {
+            0 => false,
+            1 => idx % 2 == 1,
+            2 => idx % 2 == 0,
+            _ => true,
+        };
+        if null {
+            return Cell::Null;
+        }
     }
     let k = (req * 10 + idx) as i64;
     match col_type(variant, col) {
